@@ -35,6 +35,7 @@ func checkC19(r *Run) propMeta {
 	}
 	reach := cg.Reach([]*types.Func{dump}, nil)
 	oa := newOriginAnalysis(r, cg)
+	oa.returnSummaries = true // a path built by a helper (`tempPathOf(dir)`) is what the helper returns
 
 	// ---- R1 publish-by-rename -----------------------------------------------------------------
 	for fn := range reach {
@@ -850,6 +851,39 @@ func checkCursorBeforeCommit(r *Run, p *packages.Package, fd *ast.FuncDecl) {
 			}
 			if id, ok := x.Fun.(*ast.Ident); ok && info.Uses[id] == flushObj {
 				flushCalls = append(flushCalls, x.Pos())
+			}
+			// a helper that stores one of its parameters in the cursor (`shard.wrote(node.ID)`): the call advances the
+			// cursor to the argument
+			if callee := calleeOf(info, x); callee != nil && callee.Pkg() == p.Types && setPos == token.NoPos {
+				if hd := FuncDecls(p)[declKeyOf(callee.Origin())]; hd != nil && hd.Body != nil {
+					ast.Inspect(hd.Body, func(m ast.Node) bool {
+						as, ok := m.(*ast.AssignStmt)
+						if !ok || len(as.Lhs) != len(as.Rhs) {
+							return true
+						}
+						for i, l := range as.Lhs {
+							sel, ok := ast.Unparen(l).(*ast.SelectorExpr)
+							if !ok || info.Selections[sel] == nil || info.Selections[sel].Obj() != types.Object(cursor) {
+								continue
+							}
+							pid, ok := ast.Unparen(as.Rhs[i]).(*ast.Ident)
+							if !ok {
+								continue
+							}
+							idx := paramIndexOf(info, hd, info.Uses[pid])
+							if idx < 0 || idx >= len(x.Args) {
+								continue
+							}
+							setPos = x.Pos()
+							if asel, ok := ast.Unparen(x.Args[idx]).(*ast.SelectorExpr); ok && asel.Sel.Name == "ID" {
+								if rid, ok := ast.Unparen(asel.X).(*ast.Ident); ok && info.Uses[rid] == recordParam {
+									setFromRecord = true
+								}
+							}
+						}
+						return true
+					})
+				}
 			}
 		case *ast.AssignStmt:
 			for i, l := range x.Lhs {
